@@ -159,6 +159,19 @@ def main() -> int:
         cases.append(("select a from t;\nselect %s from t" % tx, "ansi", True))
     for dv in DIRECTIVES:
         cases.append((dv + "select a from t", "ansi", False))
+    # names spelled the way some dialect spells variables / parameters / temporary objects, in every identifier position
+    # (a grammar may accept them where the extractors expect an identifier segment)
+    sigils = ["@x", "@@x", ":x", "$x", "$1", "${x}", "&x", "#x", "##x", "?", "%s", "%(x)s", "@`x`", ":1", "$$x$$", "x$y", "x#y", "_x", "`@x`"]
+    sig_tpl = ["select a.c from t as %s join u as b on a.i = b.i", "select c from t %s", "select c from t as %s",
+               "insert into %s select c from t", "select %s from t", "select c as %s from t", "with %s as (select c from t) select c from u",
+               "update t as %s set c = 1", "select c from (select c from t) as %s", "select f(%s) from t", "select c from t where c = %s",
+               "select c from %s.t", "select c from t join %s on 1 = 1", "create table %s as select c from t", "select %s.c from t",
+               "merge into t using %s on 1 = 1 when matched then update set c = 1", "delete from %s", "select c into %s from t",
+               "insert into t (%s) select c from u", "select c from t as a (%s)", "select c from %s as b (d)"]
+    for d in dialects:
+        for sg in sigils:
+            for tp in (sig_tpl if not quick else sig_tpl[(len(sg) + len(d)) % 2::2] + sig_tpl[:3]):
+                cases.append((tp % sg, d, False))
     for d in dialects:
         cases.append(("", d, False))
         cases.append(("(" * 30 + "select 1" + ")" * 30, d, False))
